@@ -1,5 +1,6 @@
 pub mod c01;
 pub mod c03;
+pub mod c06;
 pub mod c07;
 pub mod c08;
 pub mod c09;
@@ -16,6 +17,7 @@ pub fn run(prop: &str, tier: &str, replay: Option<&str>) -> i32 {
         "C02" | "C04" | "C05" => certfam::run(prop, tier, replay),
         "C01" => c01::run(prop, tier, replay),
         "C03" => c03::run(prop, tier, replay),
+        "C06" => c06::run(prop, tier, replay),
         "C07" => c07::run(prop, tier, replay),
         "C08" => c08::run(prop, tier, replay),
         "C09" => c09::run(prop, tier, replay),
